@@ -141,7 +141,7 @@ def sum_aggregation(values, **_) -> Number:
     """
     Aggregate by calculating sum.
     """
-    value_sum = np.array(values).sum()
+    value_sum = numpy_to_python_type(np.array(values).sum())
     assert isinstance(value_sum, (float, int))
     return value_sum
 
